@@ -29,10 +29,40 @@ def run(prog):
             if stage:
                 src = r.root(t["args"][0])
                 chain.append((bi, stage[0], src, t))
+    if not chain:
+        # the same pipeline written as a sequence of `let xs = stage(xs, ..)?;` statements
+        stage_of = {}
+        for bi, t in f.calls():
+            short = (callee_name(t) or "").split("::")[-1]
+            if (callee_name(t) or "").startswith(CFG) and short in STAGES:
+                stage_of[bi] = short
+        producers = set(stage_of) | {b for b, _ in parse}
+
+        def source_block(op):
+            from kq.core import is_place, rvalue_operands
+            seen, work = set(), [op]
+            while work:
+                o = work.pop()
+                if not is_place(o) or o["l"] in seen:
+                    continue
+                seen.add(o["l"])
+                for (db, di, kind, payload) in f.defs().get(o["l"], []):
+                    if kind == "assign":
+                        work.extend(rvalue_operands(payload))
+                    elif kind == "call":
+                        if db in producers:
+                            return db
+                        if (callee_name(payload) or "").split("::")[-1] in ("branch", "from_residual", "into", "from", "map_err", "unwrap"):
+                            work.extend(payload["args"])
+            return None
+        for bi, t in f.calls():
+            if bi in stage_of and t["args"]:
+                sb = source_block(t["args"][0])
+                chain.append((bi, stage_of[bi], ("call", (sb, None), []) if sb is not None else ("unknown", None, []), t))
     names = [c[1] for c in chain]
     res.inst("stages", order=names)
     if set(names) != set(STAGES) or names.count("expand_includes") != 1 or names.count("expand_templates") != 1:
-        res.viol("stages/census", f.loc, "expected the pre-processing stages %s chained with and_then (includes and templates once), found %s" % (STAGES, names))
+        res.viol("stages/census", f.loc, "expected the pre-processing stages %s, each run on the result of the one before (includes and templates once), found %s" % (STAGES, names))
         return res
     # order by data flow: each stage's receiver is the previous stage's result
     prev_block = parse[0][0] if parse else None
@@ -141,6 +171,7 @@ def run_vars(prog):
     from kq.analysis import backward_slice
     from kq.core import callee_name
     res = RuleResult("R-VARS-TRANSITIVE", "a variable that names another variable resolves to that variable's value", floor=3)
+    verdict, delegated = {}, {}
     for nm in ("atom", "list", "span_list"):
         f = prog.fn("kanata_parser::cfg::sexpr::SExpr::" + nm)
         res.fn(f)
@@ -153,7 +184,21 @@ def run_vars(prog):
                 with_table = r[0] == "agg" and r[1][2].get("v") == "Some" or r[0] == "param"
                 if any(c.endswith("HashMap::get") for c in cals) and with_table:
                     ok = True
-        res.inst("resolve/" + nm, looked_up_value_is_resolved_again=ok)
+        verdict[nm] = ok
+        if not ok:
+            # `list(vars)` written as `self.span_list(vars).map(|l| l.t.as_slice())`: it resolves whatever the sibling resolves
+            for bi, t in f.calls():
+                cn = callee_name(t) or ""
+                sib = cn.split("::")[-1]
+                if cn.startswith("kanata_parser::cfg::sexpr::SExpr::") and sib in ("atom", "list", "span_list") and cn != f.norm and len(t["args"]) >= 2:
+                    from kq.core import Resolver
+                    r0, r1 = Resolver(f).root(t["args"][0]), Resolver(f).root(t["args"][1])
+                    if r0[0] == "param" and r1[0] == "param":
+                        delegated[nm] = sib
+    for nm in ("atom", "list", "span_list"):
+        f = prog.fn("kanata_parser::cfg::sexpr::SExpr::" + nm)
+        ok = verdict[nm] or (nm in delegated and verdict.get(delegated[nm], False))
+        res.inst("resolve/" + nm, looked_up_value_is_resolved_again=ok, **({"delegates_to": delegated[nm]} if nm in delegated and not verdict[nm] else {}))
         res.oblige(ok)
         if not ok:
             res.viol("resolve/" + nm, f.loc,
